@@ -307,6 +307,7 @@ def kb_cmp_binary64(E):
     from vf.kengine import strings as KS
     from vf.kengine.sym import SBool, SFloat
     a, b = E.fp("a"), E.fp("b")
+    E.fresh_checks = True
     if E.concrete is None:
         E.add(z3.And(z3.Not(z3.fpIsNaN(a.e)), z3.Not(z3.fpIsInf(a.e)), z3.Not(z3.fpIsNaN(b.e)), z3.Not(z3.fpIsInf(b.e))))
 
